@@ -291,3 +291,32 @@ package core
 // ---- round 7: an id handed out was not in use ----
 //@ func (*pipeIDAllocator).Get
 //@   before return#1 assert !at("loop1:head", has(p.used, id))
+
+// ---- thin spots (round 7b) ----
+//@ func (*dialer).Dial
+//@   ghost wasActive = d.active at call:Lock#1
+//@   ghost wasClosed = d.closed at call:Lock#1
+//@   ghost isAsynch = d.asynch at call:Lock#1
+//@   ensures wasActive ==> result == mangos.ErrAddrInUse && !spawned("redial") && !called("dial")
+//@   ensures !wasActive && wasClosed ==> result == mangos.ErrClosed && !spawned("redial") && !called("dial")
+//@   ensures !wasActive && !wasClosed && isAsynch ==> isnil(result) && spawned("redial") && !called("dial")
+//@   ensures !wasActive && !wasClosed && !isAsynch ==> called("dial") && !spawned("redial")
+//@   before call:dial#1 assert arg0 == false && !held(d.Mutex)
+//@
+//@ func (*dialer).Close
+//@   ghost wasClosed = d.closed at call:Lock#1
+//@   ghost timer = d.redialer at call:Lock#1
+//@   ensures wasClosed ==> result == mangos.ErrClosed && !called("Stop")
+//@   ensures !wasClosed ==> isnil(result) && d.closed
+//@   ensures !wasClosed && timer != nil ==> called("Stop")
+//@
+//@ func (*listener).serve
+//@   before call:addPipe#1 assert isnil(err) && arg0 == tp && arg1 == nil && arg2 == l && !held(l.Mutex)
+//@   before call:Sleep#1 assert !isnil(err) && err != mangos.ErrClosed
+//@   before call:Accept#1 assert !held(l.Mutex) && !at("call:Unlock#2", l.closed)
+//@
+//@ func (*pipeList).Add
+//@   before call:Unlock#1 assert has(l.pipes, p.id) && l.pipes[p.id] == p
+//@
+//@ func (*pipeList).Remove
+//@   before call:Unlock#1 assert !has(l.pipes, p.id)
